@@ -377,7 +377,7 @@ def gen_attack(rng, i):
         line, meta = gen_convergence(rng, i, kind="atk")
         ops = line.split(" ")
         k = next(j for j, o in enumerate(ops) if o.startswith("gather,"))
-        ops.insert(k, "attacker,%d,%d" % (rng.choice([3, 7, 20, 50]), rng.choice([2047, 2047, 0x3fc, 0x4e0, 0x61c, 0x400])))
+        ops.insert(k, "attacker,%d,%d" % (rng.choice([3, 7, 20, 50]), rng.choice([4095, 4095, 0x3fc, 0x4e0, 0x61c, 0x400, 0x800])))
         if rng.random() < 0.5 and not meta.get("nat"):
             # a STUN server that never answers keeps the discovery transactions of every host candidate pending for 2 s
             ops[k:k] = ["server,10.9.0.1,3478,silent", "stun,0,10.9.0.1,3478", "stun,1,10.9.0.1,3478"]
@@ -391,12 +391,61 @@ def gen_attack(rng, i):
     for b in ips[1]:
         for a in ips[0]:
             ops.append("hole,%s,%s,on" % (b, a))
-    ops.append("attacker,%d,%d" % (rng.choice([2, 5, 11]), rng.choice([2047, 0x7fc, 0x6ec, 0x4e0, 0x400])))
+    ops.append("attacker,%d,%d" % (rng.choice([2, 5, 11]), rng.choice([8191, 8191, 0x7fc, 0x6ec, 0x4e0, 0x400, 0x1800, 0x1802])))
     if rng.random() < 0.5:
         ops += ["server,10.9.0.1,3478,silent", "stun,0,10.9.0.1,3478"]
     ops += ["gather,0,1", "gather,1,1", "run,%d" % rng.choice([0, 10])] + signalling(rng, 1)
     ops += ["run,%d" % rng.choice([3000, 9000]), "digest", "send,0,1,1,100,7", "run,4000"] + final_queries(1)
     return "iso%d %s" % (i, " ".join(ops)), {"kind": "atk-iso", "ncomp": 1, "ctl0": ctl[0], "ips0": ips[0]}
+
+
+def oracle_data_gated(evs, meta):
+    """C03, delivery clause: a datagram reaches the application only if it was sent by the peer's application, or - the attacker can
+    spoof source addresses and ICE does not authenticate media - if its source address had completed an authenticated check with the
+    receiving agent BEFORE: the agent answered a request from that address with a success response (only done after validating the
+    request's MESSAGE-INTEGRITY), or it received a success response of the honest peer from that address.  'pkt' lines are packets of
+    the honest agents (source as seen on the wire, destination as the sender wrote it), 'atk' lines are injections."""
+    nat = meta.get("nat") or {}
+    owner = {}                      # ip (private and public) -> agent
+    for e in evs:
+        if e.kind == "sig" and e.f[1] == "new-candidate":
+            ip = e.f[4].split("/")[4].rsplit(":", 1)[0]
+            owner[ip] = e.f[0]
+            if ip in nat:
+                owner[nat[ip]] = e.f[0]
+    sent = set()
+    auth = {}                       # agent -> sources admitted by an authenticated check, as that agent sees them
+    spoofed = []                    # (t, src, dst, len) of spoofed-source plain data not yet delivered
+    for e in evs:
+        if e.kind == "api" and e.f[1] == "send" and e.f[-1].startswith("=") and int(e.f[-1][1:]) > 0:
+            sent.add((e.f[4], e.f[5]))
+        elif e.kind == "pkt" and "stun" in e.f and "c3" in e.f and "err=487" in e.f:
+            # a role-conflict answer is only built after the request's MESSAGE-INTEGRITY was validated (conncheck.c: the reply is
+            # created after stun_agent_validate succeeded): the source proved knowledge of the password and is admitted as well
+            me = owner.get(e.f[0].rsplit(":", 1)[0])
+            if me is not None and not e.f[1].startswith(ATK_NET):
+                auth.setdefault(me, set()).add(e.f[1])
+        elif e.kind == "pkt" and "stun" in e.f and "c2" in e.f:
+            src, dst, fate = e.f[0], e.f[1], e.f[2]
+            if dst.startswith(ATK_NET) and "m1" in e.f:
+                return "agent answered a Binding request of the attacker (%s) with a success response: %s" % (dst, " ".join(e.f))
+            me = owner.get(src.rsplit(":", 1)[0])
+            if me is not None:
+                auth.setdefault(me, set()).add(dst)           # answered a validated request of dst
+            you = owner.get(dst.rsplit(":", 1)[0])
+            if you is not None and fate in ("ok", "dup"):
+                auth.setdefault(you, set()).add(src)          # (is about to get) the honest peer's success response from src
+        elif e.kind == "atk" and e.f[0] == "data-spoofed":
+            spoofed.append((e.t, e.f[1], e.f[2], e.f[-1].split("=")[1]))
+        elif e.kind == "rx":
+            if (e.f[3], e.f[4]) in sent:
+                continue
+            hit = [x for x in spoofed if x[3] == e.f[3] and owner.get(x[2].rsplit(":", 1)[0]) == e.f[0] and e.t - x[0] <= 1]
+            if hit and all(x[1] in auth.get(e.f[0], ()) for x in hit):
+                continue        # spoofed media from an address that had completed an authenticated check: outside the property
+            return "agent %s received a %s-byte message (hash %s) that nobody sent%s" % (
+                e.f[0], e.f[3], e.f[4], " (injected from %s, which never completed an authenticated check with it)" % hit[0][1] if hit else "")
+    return None
 
 
 def oracle_no_attacker_influence(evs, meta):
@@ -408,7 +457,7 @@ def oracle_no_attacker_influence(evs, meta):
             return "an attacker address sits in a check list / selected pair: %s" % txt[:300]
         if e.kind == "api" and "get_selected_pair" in txt and ATK_NET in txt:
             return "selected pair uses an attacker address: %s" % txt
-    r = oracle_data(evs)
+    r = oracle_data_gated(evs, meta)
     if r:
         return r
     if meta.get("kind") == "atk-iso":
@@ -988,7 +1037,22 @@ def gen_data(rng, i):
     ops = two_agents(rng, 0, opts, rng.choice([(1, 0), (0, 1)]), (("10.0.0.1",), ("10.0.1.1",)), ncomp)
     drop = rng.choice([0, 0, 0.1, 0.3]) if reliable else rng.choice([0, 0, 0.2])
     ops.append("net,%s,0,%d,%d,3" % (drop, rng.choice([1, 5]), rng.choice([5, 40])))
+    # pull mode: the application has no receive callback and polls nice_agent_recv_messages_nonblocking with a scatter layout whose
+    # first buffers are tiny (the STUN demultiplexer then has to look at a header spread over several buffers) and whose last
+    # buffer takes any datagram whole; chosen before gathering (all the checks go through it) or once connected
+    pulls = []
+    if rng.random() < 0.5:
+        for a in (0, 1):
+            for c in range(1, ncomp + 1):
+                if rng.random() < 0.7:
+                    head = [rng.choice([0, 1, 2, 3, 3, 4, 5, 8, 19, 20, 21, 28]) for _ in range(rng.randrange(0, 4))]
+                    pulls.append("pull,%d,1,%d,%s" % (a, c, ".".join(str(x) for x in head + [65536 + rng.choice([0, 1, 1000])])))
+    early = rng.random() < 0.6
+    if early:
+        ops += pulls
     ops += ["gather,0,1", "gather,1,1"] + signalling(rng, ncomp) + ["run,8000"]
+    if not early:
+        ops += pulls
     sizes = [1, 2, 19, 20, 21, 100, 576, 1200, 1280, 1472, 1500, 4096, 9000, 63487, 63488, 63489, 65507, 65535]
     for _ in range(rng.randrange(3, 25)):
         a = rng.randrange(2); c = rng.randrange(1, ncomp + 1)
@@ -1004,15 +1068,20 @@ def gen_data(rng, i):
         for c in range(1, ncomp + 1):
             ops.append("streamhash,%d,1,%d" % (a, c))
     ops += final_queries(ncomp)
-    return "data%d %s" % (i, " ".join(ops)), {"kind": "data-reliable" if reliable else "data-udp", "ncomp": ncomp, "drop": drop}
+    return "data%d %s" % (i, " ".join(ops)), {"kind": "data-reliable" if reliable else "data-udp", "ncomp": ncomp, "drop": drop, "pull": len(pulls)}
 
 
 def oracle_data_full(evs, meta):
     ncomp = meta["ncomp"]
+    for e in evs:
+        if e.kind == "rxbad":
+            return "nice_agent_recv_messages_nonblocking reported a message longer than the buffers it was given: %s" % " ".join(e.f)
+        if e.kind == "pullerr":
+            return "nice_agent_recv_messages_nonblocking failed on a connected component: %s" % " ".join(e.f)
     if meta["kind"] == "data-udp":
         sent = {}
         for e in evs:
-            if e.kind == "api" and e.f[1] == "send" and not e.f[-1].startswith("=-"):
+            if e.kind == "api" and e.f[1] == "send" and re.fullmatch(r"=\d+", e.f[-1]):      # (a crash can cut the last line short)
                 if int(e.f[-1][1:]) != int(e.f[4]):
                     return "send reported %s bytes for a %s-byte message" % (e.f[-1][1:], e.f[4])
                 key = (e.f[0], e.f[3], e.f[4], e.f[5])      # sender, component, length, hash
